@@ -245,16 +245,28 @@ def run(res, tier):
     res.ob('LIFECYCLE', f.where(pk[0]) if pk else f.where(), 'StartInternalThread looks at the INTERNAL thread\'s queue when it decides on the initial signal', okq, function=f.q, key='LIFECYCLE|%s|which-queue' % f.q,
            message='StartInternalThread decides on the initial wake-up signal from a queue other than _threadData[MESSAGE_THREAD_INTERNAL]: Messages queued for the internal thread before the start produce no '
                    'signal; a thread that blocks on its wake-up socket first never sees them, and since signals are sent only on the empty-to-non-empty transition, nothing ever wakes it')
-    peek = [v for v in f.walk() if v['k'] == 'VarDecl' and v['ch'] and any(x.get('q') == MSGS for x in v['ch'][0].walk()) and any((x.get('q') or '').endswith('::HasItems') for x in v['ch'][0].walk() if x.is_call())]
     sig = P.calls(f, r'::SignalInternalThread$')
     start = P.calls(f, r'::StartInternalThreadAux$')
-    ok = bool(peek) and bool(sig) and bool(start)
+
+    def internal_queue_state(cn, t):
+        """True / False if the atom says that the INTERNAL thread's Message queue is empty / non-empty (any spelling, through named locals), else None"""
+        for (c2, t2) in G.atoms_of_cond(f, cn, t):
+            em = A.emptiness(c2, t2)
+            if em is not None and em[0] is not None and any(x.get('q') == MSGS for x in em[0].walk()) \
+                    and all(A.strip_casts(x['ch'][1]).get('v') == mi_ for x in em[0].walk() if x['k'] == 'ArraySubscriptExpr'):
+                return em[1]
+        return None
+    ok = bool(sig) and bool(start)
     if ok:
-        gs = [(f.nodes[c], t) for (c, t) in C.guards_of_block(f, P.pos_of(f, sig[0])[0])]
-        ok = any(A.strip_casts(cn).get('d') == peek[0]['d'] and t for (cn, t) in gs) and P.must_precede(f, start, sig[0])
-        # on every path where the start succeeded and the flag is true the signal is reached
-        fd = peek[0]['d']
-        esc = P.escape_edges(f, null=False, extra=lambda n, pol: ('false' if pol else 'true') if (n['k'] == 'DeclRefExpr' and n.get('d') == fd) else None)
+        ok = any(internal_queue_state(cn, t) is False for (cn, t) in G.atoms_at(f, sig[0])) and P.must_precede(f, start, sig[0])
+        # on every path where the start succeeded and the queue was found non-empty the signal is reached
+        esc = set(P.escape_edges(f, null=False))
+        for blk in f.blocks.values():
+            if blk.cond is None or blk.cond not in f.nodes or len(blk.succ) != 2:
+                continue
+            for idx, truth in ((0, True), (1, False)):
+                if internal_queue_state(f.nodes[blk.cond], truth) is True:
+                    esc.add((blk.b, idx))
         ok = ok and P.must_follow(f, start[0], sig, escapes=esc)[0]
     res.ob('LIFECYCLE', f.where(), 'StartInternalThread signals the internal thread after starting it when Messages were already queued', ok, function=f.q, key='LIFECYCLE|%s|initial-signal' % f.q,
            message='Messages queued before StartInternalThread are not announced to the new thread: it sleeps with a non-empty queue')
